@@ -263,8 +263,19 @@ impl Transaction {
 			durability,
 		} = opts;
 
-		// Get the current visible sequence number as our start point.
-		let start_seq_num = core.seq_num();
+		// Get the current visible sequence number as our start point. A
+		// transaction that reads registers its snapshot in the same step, so
+		// that a compaction either sees the snapshot or starts after it (see
+		// `SnapshotTracker::register_current`).
+		let mut snapshot = None;
+		let start_seq_num = if mode.is_write_only() {
+			core.seq_num()
+		} else {
+			let s = Snapshot::begin(Arc::clone(&core));
+			let seq_num = s.seq_num;
+			snapshot = Some(s);
+			seq_num
+		};
 		#[cfg(surrealkv_verif)]
 		crate::verif::yp("begin:loaded");
 
@@ -277,11 +288,6 @@ impl Transaction {
 		let txn_guard = Some(core.active_txn_tracker.register(start_seq_num));
 		#[cfg(surrealkv_verif)]
 		crate::verif::yp("begin:registered");
-
-		let mut snapshot = None;
-		if !mode.is_write_only() {
-			snapshot = Some(Snapshot::new(Arc::clone(&core), start_seq_num));
-		}
 
 		Ok(Self {
 			mode,
